@@ -13,6 +13,16 @@ Check (C05_sequential_call : forall B s cs m k c td rs, 1 <= B -> SeqState B s c
   exists s', steps B s (enter m k (c :: td) rs) s' (enter m (k + 1)%N td (bag_res c cs :: rs)) /\
              SeqState B s' (bag_next B (m, k) c cs)).
 Print Assumptions C05_sequential_call.
+Check (C05_sequential_record_many : forall B s cs m k v n, 1 <= B -> SeqState B s cs ->
+  exists s' cs', seq_exec B s (many_calls m k v n) s' (repeat RPush n) /\ SeqState B s' cs' /\
+                 Permutation (concat cs') (many_vals m k v n ++ concat cs) /\
+                 (n = 0 -> s' = s /\ cs' = cs)).
+Print Assumptions C05_sequential_record_many.
+Check (C05_record_many_expansion : forall v n k (m : N),
+  expand_prog [XMany v n] = map (fun x => snd x) (many_calls m k v (N.to_nat n))).
+Print Assumptions C05_record_many_expansion.
+Check (C05_record_many_example_run_ok : known_class record_many_case = None /\ spec_ok record_many_case (run_case record_many_case) = true).
+Print Assumptions C05_record_many_example_run_ok.
 Check (C05_bag_push_adds : forall B x cs, Permutation (concat (push_contents B x cs)) (x :: concat cs)).
 Print Assumptions C05_bag_push_adds.
 Check (C05_sequential_run_unique : forall B s l s1 l1 s2 l2,
@@ -94,7 +104,7 @@ Check (C05_published_partition : forall B fxc ps sched, 1 <= B ->
 Print Assumptions C05_published_partition.
 Check (C05_conservation_on_model_runs : forall c, known_class c = None ->
   let cf := fst (run_gen BS true true c) in
-  late (fst cf) = false /\ AllK BS cf /\ R (fst c) cf).
+  late (fst cf) = false /\ AllK BS cf /\ R (progs_of c) cf).
 Print Assumptions C05_conservation_on_model_runs.
 Check (C05_snapshot_sees_completed : forall B fxc ps sched0 sched t l b0, 1 <= B ->
   let c := fst (exec (step B true fxc) site (init_config ps) sched0) in
@@ -142,12 +152,12 @@ Check (C05_block_order : forall B fxc ps sched0, 1 <= B ->
 Print Assumptions C05_block_order.
 Check (C05_spec_ok_sound : forall (c : case) tr rss done final anom,
   spec_ok c (tr, rss, done, final, anom) = true ->
-  anom = 0%N /\ all2 follows (fst c) rss = true /\
+  anom = 0%N /\ all2 follows (progs_of c) rss = true /\
   NoDup (map vid (cleared_out rss)) /\ NoDup (map vid (concat final)) /\
   (done = true ->
      NoDup (map vid (cleared_out rss ++ concat final)) /\
-     (forall x, In x (all_pushes (fst c) 0) -> In (vid x) (map vid (cleared_out rss ++ concat final))) /\
-     length (cleared_out rss ++ concat final) = length (all_pushes (fst c) 0))).
+     (forall x, In x (all_pushes (progs_of c) 0) -> In (vid x) (map vid (cleared_out rss ++ concat final))) /\
+     length (cleared_out rss ++ concat final) = length (all_pushes (progs_of c) 0))).
 Print Assumptions C05_spec_ok_sound.
 Check (C05_spec_no_double_clear_on_model : forall c : case,
   let '(tr, rss, _, _, _) := run_case c in
